@@ -227,28 +227,35 @@ pub fn check_plan(cap: &mut SyncCapture, acc: &mut Acc, case: u64, plan: &Plan, 
             acc.violation(case, None, format!("filter with a double quote in a value parsed to a different expression: expected {} but {}", want.describe(), describe), detail);
             return;
         }
-        // neutralise the offending values; the rest of the filter must then round-trip
-        let mut p2 = plan.clone();
-        {
-            let mut vs = Vec::new();
-            p2.values_mut(&mut vs);
-            for v in vs {
-                if v.contains('"') || v.contains('\\') {
-                    *v = "v".to_string();
+        // neutralise the offending values class by class; the rest of the filter must then round-trip
+        let neutralised_ok = |cap: &mut SyncCapture, dq: bool, bs: bool| -> bool {
+            let mut p2 = plan.clone();
+            {
+                let mut vs = Vec::new();
+                p2.values_mut(&mut vs);
+                for v in vs {
+                    let is_dq = v.contains('"');
+                    let is_bs = v.contains('\\') && !is_dq;
+                    if (dq && is_dq) || (bs && is_bs) {
+                        *v = "v".to_string();
+                    }
                 }
             }
-        }
-        let (f2, m2) = p2.build(tags);
-        let g2 = roundtrip(cap, &f2, which);
-        if g2.as_ref().map(|t| t.normalize()) != Ok(m2.normalize()) {
-            acc.violation(case, None, format!("filter still wrong after neutralising values with quotes/backslashes: {:?}", g2.map(|t| t.describe())), detail);
+            let (f2, m2) = p2.build(tags);
+            roundtrip(cap, &f2, which).map(|t| t.normalize()) == Ok(m2.normalize())
+        };
+        let sigs: &[&str] = if has_dq && neutralised_ok(cap, true, false) {
+            &["C11/value-dquote"]
+        } else if has_bs && neutralised_ok(cap, false, true) {
+            &["C11/value-backslash"]
+        } else if has_dq && has_bs && neutralised_ok(cap, true, true) {
+            &["C11/value-dquote", "C11/value-backslash"]
+        } else {
+            acc.violation(case, None, format!("filter still wrong after neutralising values with quotes/backslashes: expected {} but {}", want.describe(), describe), detail);
             return;
-        }
-        if has_dq {
-            acc.violation(case, Some("C11/value-dquote"), format!("C11/value-dquote: {} -> {}", want.describe(), describe), detail.clone());
-        }
-        if has_bs {
-            acc.violation(case, Some("C11/value-backslash"), format!("C11/value-backslash: {} -> {}", want.describe(), describe), detail);
+        };
+        for s in sigs {
+            acc.violation(case, Some(s), format!("{}: {} -> {}", s, want.describe(), describe), detail.clone());
         }
         return;
     }
